@@ -295,7 +295,7 @@ class VMTunnel(object):
         params["vpnconn_activation_%s_%s" % (name, node2.name)] = "ALWAYS"
 
         # authentication parameters
-        if auth is None:
+        if auth is None or auth["type"] == "none":
             params["vpnconn_key_type_%s" % name] = "NONE"
         elif auth["type"] == "pubkey":
             params["vpnconn_key_type_%s" % name] = "PUBLIC"
